@@ -143,6 +143,13 @@ def r2_no_shell(ctx):
         ctx.ok("command-methods", f.where(), "Command methods used: %s" % sorted(used))
 
 
+CAP_KIND = {
+    "max_program_bytes": "named_text", "max_arg_bytes": "named_text", "max_cwd_bytes": "named_text", "max_env_key_bytes": "named_text",
+    "max_env_value_bytes": "named_text", "max_stdin_bytes": "named_text", "max_args": "count", "max_env_pairs": "count",
+    "max_total_arg_bytes": "inline", "max_total_env_bytes": "inline", "max_timeout_ms": "inline",
+}
+
+
 def r3_caps(ctx):
     v = ctx.need("process::ProcessCommand::validate")
     ctx.touch(v)
@@ -181,6 +188,9 @@ def r3_caps(ctx):
             want = CAP_SUBJECT.get(f)
             if want and want not in subj:
                 ctx.bad("cap-subject|%s" % f, v.where(), "ProcessCaps.%s bounds `%s` instead of %s" % (f, subj, want))
+                continue
+            if CAP_KIND.get(f) == "named_text" and kind != "named_text":
+                ctx.bad("cap-text-unchecked|%s" % f, v.where(), "the text bounded by ProcessCaps.%s (`%s`) is only length-checked (%s): the NUL / empty / `=` tests of validate_named_text no longer run before the spawn" % (f, subj, kind))
                 continue
             if kind == "inline":
                 b, op, right, dl = site
@@ -262,6 +272,22 @@ def r3_caps(ctx):
             ctx.bad("runner-cap|%s" % cap, f.where(), "ProcessCaps.%s is not used by the runner" % cap)
 
 
+def r3b_refusal_before_spawn(ctx):
+    """A refusal (SpecInvalid / Denied) may only be produced before anything is spawned."""
+    reach = ctx.lib.reachable_from([HOST])
+    n = 0
+    for fid in sorted(reach):
+        for fn in ([ctx.lib.fns[fid]] if fid in ctx.lib.fns else []) + ctx.lib.closures_of(fid):
+            for b in sorted(fn.live):
+                for s2 in fn.blocks[b]["s"]:
+                    rv = s2["rv"]
+                    if rv["k"] == "agg" and rv["adt"].endswith("ProcessError") and rv["variant"] in ("SpecInvalid", "Denied"):
+                        n += 1
+                        ctx.bad("late-refusal|%s|%s" % (parent_fn(fn.id), rv["variant"]), fn.where(b), "ProcessError::%s is produced inside the spawn path (%s): the command is refused only after the child may already be running" % (rv["variant"], parent_fn(fn.id)))
+    if n == 0:
+        ctx.ok("no-late-refusal", ctx.need(HOST).where(), "no SpecInvalid/Denied is constructed in %d bodies reachable from run_host_process" % len(reach))
+
+
 def r4_nothing_dropped(ctx):
     v = ctx.need("process::ProcessCommand::validate")
     cmd_fields = ctx.lib.fields("process::ProcessCommand")
@@ -316,6 +342,21 @@ def r5_set_env(ctx):
         for s in f.blocks[b]["s"]:
             if any(isinstance(e, dict) and e.get("f") == "value" for e in s["lhs"]["p"]):
                 assign = True
+    # the key comparison of the search is exact equality on (pair.key, key)
+    preds = []
+    for k in ctx.lib.closures_of("process::ProcessCommand::set_env"):
+        ctx.touch(k)
+        for c in k.calls():
+            short = (c.callee or "").split("::")[-1]
+            if short in ("as_str", "deref", "as_ref", "borrow", "as_bytes"):
+                continue
+            preds.append((short, c.callee, [sh(ne(k.deep(a))) for a in c.args]))
+    exact = [p for p in preds if p[0] == "eq" and "PartialEq" in p[1] or p[0] == "eq" and "str" in p[1]]
+    other = [p for p in preds if p not in exact]
+    if len(exact) == 1 and not other and any(".key" in a for a in exact[0][2]):
+        ctx.ok("set_env|exact-key-match", f.where(), "existing pair found by exact key equality")
+    else:
+        ctx.bad("set_env|key-match|%s" % ",".join(sorted(p[0] for p in preds)), f.where(), "set_env finds the existing pair with %s instead of exact key equality: distinct keys can overwrite each other (or equal keys not be found)" % [p[1] for p in preds])
     if has_find and push and assign:
         ctx.ok("set_env|update-or-push", f.where(), "existing key: value overwritten; otherwise pushed")
     else:
@@ -335,7 +376,7 @@ def r5_set_env(ctx):
             ctx.bad("set_env|push-only-when-absent", f.where(c.block), "set_env pushes a pair even when the key exists")
 
 
-RULES = [("C15-R1", r1_gate), ("C15-R2", r2_no_shell), ("C15-R3", r3_caps), ("C15-R4", r4_nothing_dropped), ("C15-R5", r5_set_env)]
+RULES = [("C15-R1", r1_gate), ("C15-R2", r2_no_shell), ("C15-R3", r3_caps), ("C15-R3b", r3b_refusal_before_spawn), ("C15-R4", r4_nothing_dropped), ("C15-R5", r5_set_env)]
 
 EXPLANATION = (
     "R1: the platform process runner is invoked only from the `run` arm of the command dispatcher, edge-dominated by "
